@@ -133,7 +133,7 @@ def judge_batch(name, header, progs, paths, backend, tier, stats, violations, fo
         elif got == "reject":
             codes = {e["code"] for e in errs}
             stats["codes"].update(codes)
-            if not codes & {"E0277", "E0369", "E0308", "E0368"}:
+            if not codes & {"E0277", "E0369", "E0308", "E0368", "E0271"}:
                 violations.append(mk_violation("C06/unexpected-error-kind", name, backend, tier, header, p, got, errs))
     return src
 
